@@ -5,7 +5,7 @@ leaves or ancestors — and is realised through the public dict format of `Hiera
 from . import aflat, flat
 
 
-def impose_tree(d, rng, p_child=0.6, p_parallel=0.35, max_depth=2):
+def impose_tree(d, rng, p_child=0.6, p_parallel=0.35, max_depth=2, p_local=0.5):
     """in place: d.states[i] gets parent / children / parallel / initial; returns d"""
     depth = {}
     for s in d.states:
@@ -30,6 +30,13 @@ def impose_tree(d, rng, p_child=0.6, p_parallel=0.35, max_depth=2):
             s['parallel'] = True
         elif s['children']:
             s['init_child'] = rng.choice(s['children'])
+    # some transitions between siblings are declared locally, in the scope of their common parent
+    for _ev, ts in d.events:
+        for t in ts:
+            p = d.states[t['source']]['parent']
+            t['local'] = None
+            if p is not None and (t['dest'] is None or d.states[t['dest']]['parent'] == p) and rng.random() < p_local:
+                t['local'] = p
     d.nested = True
     return d
 
@@ -53,6 +60,9 @@ class NRun7(aflat.Run7):
         s = self.d.states[i]
         nd = {'name': seg(i), 'on_enter': self.names(s['on_enter']), 'on_exit': self.names(s['on_exit']),
               'ignore_invalid_triggers': s['ignore'], 'final': s['final']}
+        local = [self.trans_def(ev, t, True) for ev, ts in self.d.events for t in ts if t.get('local') == i]
+        if local:
+            nd['transitions'] = local
         if s['children']:
             kids = [self.node_def(c) for c in s['children']]
             if s['parallel']:
@@ -65,18 +75,18 @@ class NRun7(aflat.Run7):
     def state_defs(self):
         return [self.node_def(i) for i, s in enumerate(self.d.states) if s['parent'] is None]
 
-    def transition_defs(self):
+    def trans_def(self, ev, t, local):
         d = self.d
-        out = []
-        for ev, ts in d.events:
-            for t in ts:
-                out.append({'trigger': flat.ename(ev), 'source': full_name(d, t['source']),
-                            'dest': None if t['dest'] is None else full_name(d, t['dest']),
-                            'prepare': self.names(t['prepare']),
-                            'conditions': self.names([c for c, tg in t['conds'] if tg]),
-                            'unless': self.names([c for c, tg in t['conds'] if not tg]),
-                            'before': self.names(t['before']), 'after': self.names(t['after'])})
-        return out
+        name = (lambda i: seg(i)) if local else (lambda i: full_name(d, i))
+        return {'trigger': flat.ename(ev), 'source': name(t['source']),
+                'dest': None if t['dest'] is None else name(t['dest']),
+                'prepare': self.names(t['prepare']),
+                'conditions': self.names([c for c, tg in t['conds'] if tg]),
+                'unless': self.names([c for c, tg in t['conds'] if not tg]),
+                'before': self.names(t['before']), 'after': self.names(t['after'])}
+
+    def transition_defs(self):
+        return [self.trans_def(ev, t, False) for ev, ts in self.d.events for t in ts if t.get('local') is None]
 
     def build(self, extra):
         d = self.d
